@@ -23,4 +23,18 @@ a, b = '<!-- SEEDED-TABLE-BEGIN -->', '<!-- SEEDED-TABLE-END -->'
 if a in s:
     s = s[:s.index(a) + len(a)] + "\n" + table + s[s.index(b):]
     open(p, 'w').write(s)
-print(len(rows), "rows")
+# behaviour-preserving rewrites
+hrows = []
+for d in sorted(glob.glob('/verif/seeded/harmless/*')):
+    mp = os.path.join(d, 'meta.json')
+    if not os.path.exists(mp): continue
+    m = json.load(open(mp)); chk = m.get('check', {})
+    res = 'quiet (exit 0)' if chk.get('exit') == 0 else ('tripped: ' + ' '.join(chk.get('lines') or [])[:120].replace('|', '/'))
+    hrows.append("| %s | %s | %s | %s |" % (os.path.basename(d), m.get('property'), (m.get('summary') or '')[:200].replace('|', '/').replace('\n', ' '), res))
+htable = "| id | property | rewrite | result of the check |\n|---|---|---|---|\n" + "\n".join(hrows) + "\n"
+s = open(p).read()
+a2, b2 = '<!-- HARMLESS-TABLE-BEGIN -->', '<!-- HARMLESS-TABLE-END -->'
+if a2 in s:
+    s = s[:s.index(a2) + len(a2)] + "\n" + htable + s[s.index(b2):]
+    open(p, 'w').write(s)
+print(len(rows), "rows;", len(hrows), "harmless")
